@@ -345,7 +345,10 @@ class _RawConfigParser(configparser.RawConfigParser):
       if fallback is configparser._UNSET:
         raise configparser.NoOptionError(option, section)
       return fallback
-    return super(_RawConfigParser, self).get(section, option, raw=raw, vars=vars, fallback=fallback)
+    try:
+      return super(_RawConfigParser, self).get(section, option, raw=raw, vars=vars, fallback=fallback)
+    except configparser.InterpolationError as e:
+      raise ConfigParserException("Could not resolve placeholder in [{}] '{}': {}".format(section, option, e.message))
 
 class ConfigParser(object):
   """Performs initial stage (tokenizing) of generating a potential model
